@@ -324,7 +324,7 @@ int fiber_manager_get_kernel_thread_count() {
 extern int fiber_mutex_unlock_internal(fiber_mutex_t* mutex);
 
 void fiber_manager_do_maintenance() {
-  fiber_manager_t* const manager = fiber_manager_get();
+  fiber_manager_t* manager = fiber_manager_get();
 
   fiber_t* const old_fiber = manager->old_fiber;
   if (old_fiber->state == FIBER_STATE_SAVING_STATE_TO_WAIT) {
@@ -357,6 +357,8 @@ void fiber_manager_do_maintenance() {
     fiber_mutex_t* const to_unlock = manager->mutex_to_unlock;
     manager->mutex_to_unlock = NULL;
     fiber_mutex_unlock_internal(to_unlock);
+    // unlocking may have yielded and resumed this fiber on another thread
+    manager = fiber_manager_get();
   }
 
   if (manager->spinlock_to_unlock) {
